@@ -272,11 +272,9 @@ class SymVC(BaseVC):
 
     def stub(self, spec, f):
         """replace callee `spec` by a contract stub (modular verification); symbolic mode only."""
-        if spec not in self.loader.stubs:
-            if any(k for k in self.loader.cache if k != spec and not isinstance(k, tuple)):
-                pass
-            self.loader.stubs[spec] = f
-            STUBBED.add(spec)
+        if self.loader.stubs.get(spec) is not f:
+            self.loader.add_stub(spec, f)
+        STUBBED.add(spec)
 
     def cls(self, spec, **kw):
         return self.loader.cls(spec, **kw)
